@@ -6,6 +6,7 @@ import (
 	"fmt"
 
 	"github.com/tellor-io/layer/x/oracle/types"
+	regTypes "github.com/tellor-io/layer/x/registry/types"
 
 	errorsmod "cosmossdk.io/errors"
 
@@ -21,11 +22,40 @@ func (k msgServer) UpdateCyclelist(ctx context.Context, req *types.MsgUpdateCycl
 		return nil, errorsmod.Wrapf(types.ErrInvalidSigner, "invalid authority; expected %s, got %s", k.keeper.GetAuthority(), req.Authority)
 	}
 
+	// end-of-block rotation indexes into the list and initializes a query from each entry, so the
+	// list must be non-empty and every entry must decode to a query type with a registered spec
+	if len(req.Cyclelist) == 0 {
+		return nil, errorsmod.Wrap(types.ErrInvalidQueryData, "cyclelist cannot be empty")
+	}
+	for _, querydata := range req.Cyclelist {
+		queryType, _, err := regTypes.DecodeQueryType(querydata)
+		if err != nil {
+			return nil, errorsmod.Wrapf(types.ErrInvalidQueryData, "cyclelist entry is not decodable: %v", err)
+		}
+		if _, err := k.keeper.GetDataSpec(ctx, queryType); err != nil {
+			return nil, errorsmod.Wrapf(types.ErrInvalidQueryData, "cyclelist entry has no registered data spec: %v", err)
+		}
+	}
+
 	if err := k.keeper.Cyclelist.Clear(ctx, nil); err != nil {
 		return nil, err
 	}
 	if err := k.keeper.InitCycleListQuery(ctx, req.Cyclelist); err != nil {
 		return nil, err
+	}
+	// the stored list is keyed by query id (duplicates collapse); keep the rotation index inside it
+	list, err := k.keeper.GetCyclelist(ctx)
+	if err != nil {
+		return nil, err
+	}
+	idx, err := k.keeper.CyclelistSequencer.Peek(ctx)
+	if err != nil {
+		return nil, err
+	}
+	if idx >= uint64(len(list)) {
+		if err := k.keeper.CyclelistSequencer.Set(ctx, 0); err != nil {
+			return nil, err
+		}
 	}
 	queries := make([]string, len(req.Cyclelist))
 	for i, query := range req.Cyclelist {
